@@ -124,11 +124,13 @@ func propC15(c *Ctx) {
 	c.Rule("C15.R1", func() {
 		fn := childHandler(c, "UpdateOracle")
 		o := c.Ob("C15.R1", "UpdateOracle: ApplyOracleUpdate(req.Height, req.Data) only for an executor and with the oracle enabled")
-		for _, p := range c.Paths(fn, PO{Params: hParams, NoInline: []string{".Validate", "checkBridgeExecutorPermission", "ApplyOracleUpdate"}}) {
+		// decided at the call of the oracle handler itself (the keeper-level forwarder, if there
+		// is one, is inlined)
+		for _, p := range c.Paths(fn, PO{Params: hParams, NoInline: []string{".Validate", "checkBridgeExecutorPermission", "L2OracleHandler).UpdateOracle"}}) {
 			o.Paths++
 			o.Facts += p.NFacts()
 			for _, i := range p.Find(func(ev *Event) bool {
-				return ev.Kind == EvCall && strings.HasSuffix(ev.Call.Name, "Keeper).ApplyOracleUpdate")
+				return ev.Kind == EvCall && strings.HasSuffix(ev.Call.Name, "L2OracleHandler).UpdateOracle")
 			}) {
 				o.Sites++
 				ev := &p.Events[i]
@@ -157,7 +159,10 @@ func propC15(c *Ctx) {
 		if o.Sites == 0 {
 			o.Fail(c.W.Pos(fn.Pos()), "no ApplyOracleUpdate call", nil)
 		}
-		ap := c.Method(childKeeper, "Keeper", "ApplyOracleUpdate")
+		ap := c.W.Method(childKeeper, "Keeper", "ApplyOracleUpdate")
+		if ap == nil {
+			return // no keeper-level forwarder
+		}
 		o2 := c.Ob("C15.R1", "ApplyOracleUpdate forwards (height, bytes) unchanged to L2OracleHandler.UpdateOracle")
 		for _, p := range c.Paths(ap, PO{Params: []string{"k", "ctx", "height", "bz"}, NoInline: []string{"L2OracleHandler).UpdateOracle"}}) {
 			o2.Paths++
@@ -446,7 +451,8 @@ func propC15(c *Ctx) {
 		for _, s := range eff.Where(func(s *Site) bool { return s.Kind == SIface && s.Method == "SetPriceForCurrencyPair" }) {
 			o2.Sites++
 			for _, r := range eff.OwnerNames(s) {
-				if r != "(opchild/keeper.MsgServer).UpdateOracle" {
+				// (Keeper.ApplyOracleUpdate: the keeper-level forwarder to the same handler, an API root)
+				if r != "(opchild/keeper.MsgServer).UpdateOracle" && r != "(opchild/keeper.Keeper).ApplyOracleUpdate" {
 					o2.Fail(c.W.Pos(s.Pos), "price written from "+r+attributedNote(s, r), nil)
 				}
 			}
